@@ -4,6 +4,9 @@
       index/merge.go:Explode / explode          (open, write one simple shard per live repo under <name>.tmp,
                                                 remove compound + sidecar, rename each, deferred tmp cleanup)
       index/merge.go:builderWriteAll            (MkdirAll, CreateTemp, chmod/write/close, Rename)
+    Since the C35 "stale .meta" repair both drivers also remove a pre-existing <dst>.meta right before the
+    publishing rename(s) (os.Remove, IsNotExist ignored); the programs take [fixed : bool] so that the code
+    before that repair ([fixed = false]) stays available for the `_before_fix_refuted` theorems.
     over a small filesystem with per-operation Done|Failed (natural failures from the state + failures
     injected by an arbitrary plan) and a log of the state before every operation (crash = any logged state).
 
@@ -117,6 +120,8 @@ Section Driver.
   Variable plan : op -> nat -> bool.
   (** Go map iteration order in Explode (rename loop, deferred cleanup loop) *)
   Variable shuf_rename shuf_cleanup : shuffle.
+  (** ... and in Explode's loop removing stale sidecars at the destination names (a third `range exploded`) *)
+  Variable shuf_stale : shuffle.
 
   Definition exec (o : op) (c : content) : M bool := fun w =>
     let r := if plan o (occ o (w_log w)) then None else step (w_fs w) o c in
@@ -124,6 +129,17 @@ Section Driver.
     | Some s' => (true, {| w_fs := s'; w_log := (o, true, w_fs w) :: w_log w |})
     | None => (false, {| w_fs := w_fs w; w_log := (o, false, w_fs w) :: w_log w |})
     end.
+
+  (** `if err := os.Remove(p); err != nil && !os.IsNotExist(err) { return err }`: the operation is always
+      attempted (and logged); a missing file is not an error, an injected failure or a directory in the way is *)
+  Definition exec_remove_stale (p : path) : M bool := fun w =>
+    let o := ORemove p in
+    if plan o (occ o (w_log w)) then (false, {| w_fs := w_fs w; w_log := (o, false, w_fs w) :: w_log w |})
+    else match step (w_fs w) o CGarbage with
+         | Some s' => (true, {| w_fs := s'; w_log := (o, true, w_fs w) :: w_log w |})
+         | None => (match w_fs w p with None => true | Some _ => false end,
+                    {| w_fs := w_fs w; w_log := (o, false, w_fs w) :: w_log w |})
+         end.
 
   (** index/merge.go:builderWriteAll(fn = z.tmp, content) *)
   Definition builder_write_all (z : zname) (c : content) : M bool :=
@@ -209,7 +225,7 @@ Section Driver.
   (** result of [merge] when os.Open of an input fails.  main.go: `return "", err` (before the C35 fix: `return "", nil`) *)
   Definition merge_open_failed : res := RErr.
 
-  Definition merge_prog (names : list zname) : M res :=
+  Definition merge_prog_gen (fixed : bool) (names : list zname) : M res :=
     doM o <- open_all names ;;
     match o with
     | OpenFailed => ret merge_open_failed
@@ -225,10 +241,16 @@ Section Driver.
             if negb ok then ret RErr else
             doM ok <- delete_inputs names ;;
             if negb ok then ret RErr else
+            (* "stale .meta" repair: os.Remove(dstName + ".meta"), IsNotExist ignored *)
+            doM ok <- (if fixed then exec_remove_stale (PMeta dst) else ret true) ;;
+            if negb ok then ret RErr else
             doM ok <- exec (ORename (PTmp dst) (PZ dst)) CGarbage ;;
             if negb ok then ret RErr else ret (ROk (Some dst))
         end
     end.
+
+  Definition merge_prog := merge_prog_gen true.
+  Definition merge_prog_before_fix := merge_prog_gen false.
 
   (** ---------------- index.Explode *)
   (** explode's loop: one builderWriteAll per live repo; returns the tmp names registered so far
@@ -243,6 +265,13 @@ Section Driver.
         if negb ok then ret (false, acc') else write_simple rest acc'
     end.
 
+  (** the loop `for _, dstFn := range exploded { os.Remove(dstFn + ".meta") ... return err }` *)
+  Fixpoint remove_stale_all (zs : list zname) : M bool :=
+    match zs with
+    | [] => ret true
+    | z :: r => doM ok <- exec_remove_stale (PMeta z) ;; if negb ok then ret false else remove_stale_all r
+    end.
+
   Fixpoint rename_best_effort (zs : list zname) : M bool :=
     match zs with
     | [] => ret true
@@ -255,7 +284,7 @@ Section Driver.
   (** result of Explode when some rename failed.  merge.go: `return renameErr` (before the C35 fix: only logged, `return nil`) *)
   Definition explode_rename_failed : res := RErr.
 
-  Definition explode_prog (c : zname) : M res :=
+  Definition explode_prog_gen (fixed : bool) (c : zname) : M res :=
     doM ok <- exec (OOpen (PZ c)) CGarbage ;;
     if negb ok then ret RErr else
     doM s <- get_fs ;;
@@ -272,15 +301,23 @@ Section Driver.
           doM s1 <- get_fs ;;
           doM ok <- remove_all (index_file_paths s1 c) ;;
           if negb ok then (doM _ <- remove_best_effort (map PTmp (shuf_cleanup tmps)) ;; ret RErr) else
+          (* "stale .meta" repair *)
+          doM ok <- (if fixed then remove_stale_all (shuf_stale tmps) else ret true) ;;
+          if negb ok then (doM _ <- remove_best_effort (map PTmp (shuf_cleanup tmps)) ;; ret RErr) else
           doM ok <- rename_best_effort (shuf_rename tmps) ;;
           doM _ <- remove_best_effort (map PTmp (shuf_cleanup tmps)) ;;
           ret (if ok then ROk None else explode_rename_failed)
       end
     end.
 
+  Definition explode_prog := explode_prog_gen true.
+  Definition explode_prog_before_fix := explode_prog_gen false.
+
   Definition init_world (s : fs) : world := {| w_fs := s; w_log := [] |}.
   Definition run_merge (s : fs) (names : list zname) : res * world := merge_prog names (init_world s).
   Definition run_explode (s : fs) (c : zname) : res * world := explode_prog c (init_world s).
+  Definition run_merge_before_fix (s : fs) (names : list zname) : res * world := merge_prog_before_fix names (init_world s).
+  Definition run_explode_before_fix (s : fs) (c : zname) : res * world := explode_prog_before_fix c (init_world s).
 
   (** every state a crash can leave behind: the state before each operation, and the final one *)
   Definition crash_states (w : world) : list fs := w_fs w :: map snd (w_log w).
@@ -338,19 +375,20 @@ Definition res_ok (r : res) (code : N) (dst : option zname) : bool :=
   | _, _ => false
   end.
 
-(** case = (mode (0 merge | 1 explode), initial files, names, faults, kill point, observed map order,
-            result code, returned path, observations of the final / killed state) *)
+(** case = (mode (0 merge | 1 explode), initial files, names, faults, kill point, observed map order of the
+            rename loop, observed map order of the stale-sidecar loop, result code, returned path,
+            observations of the final / killed state) *)
 Definition c35case :=
-  (N * list (path * node) * list zname * list (op * nat) * option (op * nat) * list zname *
+  (N * list (path * node) * list zname * list (op * nat) * option (op * nat) * list zname * list zname *
    N * option zname * list obs)%type.
 
 Definition c35_ok (c : c35case) : bool :=
-  let '(mode, init, names, faults, kill, order, code, dst, observations) := c in
+  let '(mode, init, names, faults, kill, order, order_stale, code, dst, observations) := c in
   let s0 := mkfs init in
   let '(r, w) :=
     match mode with
     | 0%N => run_merge (plan_of faults) s0 names
-    | _ => run_explode (plan_of faults) (shuf_by order) (shuf_by order) s0 (hd (ZOther 0) names)
+    | _ => run_explode (plan_of faults) (shuf_by order) (shuf_by order) (shuf_by order_stale) s0 (hd (ZOther 0) names)
     end in
   match kill with
   | None => res_ok r code dst && forallb (obs_ok (w_fs w)) observations
